@@ -34,6 +34,17 @@ def builders(prog):
     return out
 
 
+def conditional_effects(f, pv):
+    """effects that do not happen on every path through the method (ignoring `?` edges): [(effect string, condition)]"""
+    from lib.guards import conditions
+    out = []
+    for e in pv.effects():
+        cs = [c for c in conditions(f, pv, e["bb"]) if not (c[0][0] == "discr" and is_call(c[0][1], "core::ops::try_trait::Try::branch"))]
+        if cs:
+            out.append((show(e["place"])[:40], show(cs[-1][0])[:80]))
+    return out
+
+
 def norm_effects(pv):
     out = []
     for e in pv.effects():
@@ -118,6 +129,11 @@ def check(ctx):
             if key in B.EFFECTS:
                 want = [tuple(x) for x in B.EFFECTS[key]]
                 ok = sorted(map(repr, effs)) == sorted(map(repr, want)) and rt == ("param", 0)
+                if key not in B.GUARDS:
+                    ce = conditional_effects(f, pv)
+                    ctx.ob("R-3", "unconditional:%s" % key, not ce,
+                           "%s applies its documented effect on every call, whatever the argument" % key, where=f.span,
+                           detail={"conditional_effects": ce})
                 ctx.ob("R-2", "effect:%s" % key, ok,
                        "%s has exactly its documented effect (%s) and returns self" % (key, "; ".join(_eff_str(w) for w in want)),
                        where=f.span, detail={"found": [_eff_str(e) for e in effs], "return": show(rt)[:60]},
@@ -149,7 +165,7 @@ def check(ctx):
             else:
                 want = None
                 form = "?"
-            ok = want is not None and effs == want and rt == ("param", 0) and _no_panic(f)
+            ok = want is not None and effs == want and rt == ("param", 0) and _no_panic(f) and not conditional_effects(f, pv)
             ctx.ob("R-1", "setter:%s" % key, ok, "%s: %s, nothing else touched, returns self" % (key, form), where=f.span,
                    detail={"found": [_eff_str(e) for e in effs], "field_type": fty, "param_type": pty},
                    sample={"method": key, "effect": [_eff_str(e) for e in effs]} if bname == "mac::CoseMac0Builder" else None)
